@@ -392,6 +392,23 @@ type vfGccRun struct {
 	sunk   atomic.Int64 // packets that reached the downstream writer
 	sent   int64
 	closed bool
+	// a transport that has not come back yet: the next packet that reaches the stream's transport writer parks there until
+	// the script releases it (steps "sendheld" / "release")
+	held     atomic.Pointer[chan struct{}]
+	heldCh   chan struct{}
+	heldIn   chan struct{}
+	heldDone chan struct{}
+	heldOnce sync.Once
+}
+
+// release lets the parked transport write (if any) return and waits for the writing goroutine
+func (r *vfGccRun) release() {
+	if r.heldCh == nil {
+		return
+	}
+	r.held.Store(nil)
+	r.heldOnce.Do(func() { close(r.heldCh) })
+	vfGccWithin("the held RTP write (after its transport came back)", func() { <-r.heldDone })
 }
 
 func vfGccReset(sc *vfGccScript) vfM {
@@ -559,6 +576,10 @@ func vfGccRunSeq(sc *vfGccScript, lg *vfGccLog, d *vfGccDriver) {
 	}
 	r.w = d.addStream(info, interceptor.RTPWriterFunc(func(h *rtp.Header, b []byte, _ interceptor.Attributes) (int, error) {
 		r.sunk.Add(1)
+		if ch := r.held.Swap(nil); ch != nil {
+			close(r.heldIn)
+			<-*ch
+		}
 		if sc.Loopback && h != nil {
 			now := time.Now()
 			secs := uint64(now.Unix()) + 2208988800 //nolint:gosec
@@ -576,6 +597,25 @@ func vfGccRunSeq(sc *vfGccScript, lg *vfGccLog, d *vfGccDriver) {
 		switch s.A {
 		case "send":
 			r.send(s)
+		case "sendheld": // one packet is written from another goroutine and stays inside the transport until "release"
+			ch := make(chan struct{})
+			r.heldCh, r.heldIn, r.heldDone = ch, make(chan struct{}), make(chan struct{})
+			r.heldOnce = sync.Once{}
+			r.held.Store(&ch)
+			hdr := r.header(r.fb.next)
+			r.fb.next++
+			go func(done chan struct{}) {
+				defer close(done)
+				_, _ = r.w.Write(hdr, make([]byte, 500), nil)
+			}(r.heldDone)
+			select {
+			case <-r.heldIn:
+			case <-time.After(2 * time.Second): // (a pacer that has not sent it yet: the hold stays armed)
+			}
+			r.sent++
+			r.lg.add(vfM{"a": "send", "n": 1, "ok": 1, "gap": 0})
+		case "release":
+			r.release()
 		case "fb":
 			before := r.fb.prev
 			pkts := r.fb.build(s.Pat, s.Loss)
@@ -597,6 +637,7 @@ func vfGccRunSeq(sc *vfGccScript, lg *vfGccLog, d *vfGccDriver) {
 			r.close()
 		}
 	}
+	r.release()
 	// every script ends closed, and after Close: the closed error, nothing published any more
 	if !r.closed {
 		r.quiesce()
